@@ -711,11 +711,48 @@ func indexesNormalised(fn *ssa.Function) (bool, string) {
 			}
 		}
 	}
+	// the access made by a helper of the package (p.at(pos)): the helper's index derives from its
+	// parameter, and the argument is a normalised position
+	for _, b := range fn.Blocks {
+		for _, in := range b.Instrs {
+			call, ok := in.(*ssa.Call)
+			if !ok {
+				continue
+			}
+			f := call.Call.StaticCallee()
+			if f == nil || f.Blocks == nil || f.Pkg != fn.Pkg {
+				continue
+			}
+			for _, hb := range f.Blocks {
+				for _, hin := range hb.Instrs {
+					ia, ok := hin.(*ssa.IndexAddr)
+					if !ok || !isSliceType(ia.X.Type()) {
+						continue
+					}
+					n++
+					normalisedParams = map[*ssa.Parameter]bool{}
+					for i, q := range f.Params {
+						if i < len(call.Call.Args) && derivesFromNormalisedMod(call.Call.Args[i], 0) {
+							normalisedParams[q] = true
+						}
+					}
+					okIdx := derivesFromNormalisedMod(ia.Index, 0)
+					normalisedParams = nil
+					if !okIdx {
+						return false, "the coefficient index " + descValue(ia.Index, 0) + " used by " + f.Name() + " is not reduced into [0, n): a negative shift makes it negative (panic)"
+					}
+				}
+			}
+		}
+	}
 	if n == 0 {
 		return false, "no coefficient access found"
 	}
 	return true, ""
 }
+
+// normalisedParams: parameters of the helper being looked through whose argument is a normalised position.
+var normalisedParams map[*ssa.Parameter]bool
 
 func derivesFromNormalisedMod(v ssa.Value, depth int) bool {
 	if depth > 8 {
@@ -723,6 +760,8 @@ func derivesFromNormalisedMod(v ssa.Value, depth int) bool {
 	}
 	v = stripConvAll(v)
 	switch x := v.(type) {
+	case *ssa.Parameter:
+		return normalisedParams[x]
 	case *ssa.Phi:
 		// phi(r, r+n) with r = _ % n
 		var rem *ssa.BinOp
